@@ -833,10 +833,10 @@ impl<'de> Deserialize<'de> for Scheme {
             {
                 let mut builder = SchemeBuilder::new();
                 while let Some((name, SerdeField { ty, optional })) =
-                    map.next_entry::<&str, SerdeField>()?
+                    map.next_entry::<std::borrow::Cow<'_, str>, SerdeField>()?
                 {
                     builder
-                        .add_field_full(name.into(), ty, optional)
+                        .add_field_full((&*name).into(), ty, optional)
                         .map_err(A::Error::custom)?;
                 }
 
